@@ -600,7 +600,9 @@ func runC15GobMulti(c *Ctx) *Violation {
 		m[k] = map[string]interface{}(v)
 		descr = append(descr, k+":"+doc)
 	}
+	stepsBefore := c.Steps
 	g := canonicalGob(m, keys)
+	c.Steps = stepsBefore // the number of retries follows encoding/gob's map walk: not part of the case
 	if g == nil {
 		return nil
 	}
